@@ -126,9 +126,46 @@ for it in range(N):
             for nm in pos.columns:
                 if nm not in p2.columns or not close(p2[nm].to_numpy(), pos[nm].to_numpy(), 1e-7): bad("replay-reproduces-positions", ticker=nm, config=cfg); break
             if not close(t2.strategy.values.to_numpy(), s.values.to_numpy(), 1e-7): bad("replay-reproduces-values", config=cfg, worst=float(np.nanmax(np.abs(t2.strategy.values.to_numpy() - s.values.to_numpy()))))
+            # the same list with its rows in another order (e.g. per-ticker or per-sleeve blotters put together) replays identically: the algo selects by timestamp
+            rp3 = Strategy("replay", [A.ReplayTransactions("transactions")], children=[Security(nm, multiplier=cfg["mult"]) for nm in sorted({m.name for m in secs})])
+            add3 = dict(add); add3["transactions"] = tx.iloc[rs.permutation(len(tx))]
+            t3 = bt.Backtest(rp3, data, integer_positions=cfg["intpos"], additional_data=add3, progress_bar=False, commissions=lambda q, p: abs(q) * 0.001)
+            t3.run(); evals += 1
+            for nm in pos.columns:
+                if nm not in t3.positions.columns or not close(t3.positions[nm].to_numpy(), pos[nm].to_numpy(), 1e-7): bad("replay-of-the-reordered-list-reproduces-positions", ticker=nm, config=cfg); break
         except Exception as e:
             bad("replay-raised", config=cfg, error=repr(e)[:200])
     if it < 2: samples.append(dict(config=cfg, final=float(s.value), transactions=0 if tx is None else int(len(tx))))
+# ---- fixed-income root: component / security weights over notional values, turnover over NAV
+for it in range(max(3, N // 8)):
+    n = int(rs.randint(10, 20))
+    idx = pd.bdate_range("2020-01-01", periods=n)
+    data = pd.DataFrame(100 * np.exp(np.cumsum(rs.randn(n, 3) * 0.01, axis=0)), index=idx, columns=list("abc"))
+    wt = pd.DataFrame(rs.dirichlet(np.ones(3), size=n), index=idx, columns=list("abc"))
+    notional = pd.Series(1e6 * (1 + 0.1 * rs.rand(n)), index=idx)
+    class WT(A.Algo):
+        def __call__(self, target):
+            if target.now in wt.index: target.temp["weights"] = {k: float(v) for k, v in wt.loc[target.now].items()}
+            return True
+    fis = FixedIncomeStrategy("fi", [A.RunWeekly(), WT(), A.SetNotional("notional"), A.Rebalance()], children=[FixedIncomeSecurity(x) for x in "abc"])
+    try:
+        t = bt.Backtest(fis, data, integer_positions=False, additional_data={"notional": notional}, progress_bar=False)
+        t.run()
+    except Exception as e:
+        continue
+    evals += 1
+    s = t.strategy
+    secs = [m for m in s.members if isinstance(m, SecurityBase)]
+    nv = s.notional_values
+    w = t.weights
+    for m in s.members:
+        if not close(w[m.full_name].to_numpy(), (m.notional_values / nv).to_numpy()): bad("fixed-income:component-weight-is-notional-over-root-notional", node=m.full_name)
+    sw = t.security_weights
+    for m in secs:
+        if not close(sw[m.name].to_numpy(), (m.notional_values / nv).to_numpy()): bad("fixed-income:security-weight-is-notional-over-root-notional", ticker=m.name)
+    o = pd.DataFrame({m.name: m.outlays for m in secs})
+    want_to = np.minimum(o.where(o >= 0, 0.0).sum(axis=1), o.where(o < 0, 0.0).sum(axis=1).abs()) / s.values
+    if not close(t.turnover.to_numpy(), want_to.to_numpy()): bad("fixed-income:turnover-is-min-of-buys-and-sells-over-nav")
 # ---- direct API: positions opened on the very first date of the data (no synthetic first row as in Backtest)
 for it in range(max(3, N // 8)):
     n = 6
